@@ -13,7 +13,7 @@ func fragJobs(tier string) []*Job {
 		mk("ctx-full-k1", "VerifFragCtx", 1, "15 context prefixes (open class/def/block/case/if, typed receivers followed by `.` or `[`) + <=1 fragment from the full alphabet"),
 	}
 	cp := mk("corpus-prefixes", "VerifCorpusPrefix", 0, "the repository's example programs (/repo/test/*.rb with a plain invocation and at most 60 lines; quick tier: a sample of 40 chosen by VERIF_SEED, thorough tier: all): every line-prefix, with/without the final newline, `ti f` and `ti f -i`")
-	cp.Config, cp.Budget = "", 400000000
+	cp.Config, cp.Budget = "", 30000000
 	cp.Bound = strings.Replace(cp.Bound, "; configuration: core subset", "; FULL shipped test configuration (the text after this sentence applies to the other jobs); configuration: core subset", 1)
 	if tier == "thorough" {
 		js = append(js, cp, // line-prefixes of real programs run long (unterminated constructs): thorough tier only
